@@ -200,3 +200,5 @@ fire("C15", J, "                cast(float, constant_value_from_json(value[\"rea
 fire("C16", "code_data/_cli.py", 'parser = argparse.ArgumentParser(description="Inspect Python code objects.")', 'parser = argparse.ArgumentParser(description="Inspect Python code objects.", fromfile_prefix_chars="@")', "@file expansion (R16.7)")
 silent(["C16"], "code_data/_cli.py", 'parser = argparse.ArgumentParser(description="Inspect Python code objects.")', 'parser = argparse.ArgumentParser(description="Inspect Python code objects.", epilog="See the docs.")', "presentation only")
 fire("C12", J, "    if is_dataclass(value):\n        return {", "    if isinstance(value, (Jump, Name)):\n        return vars(value)\n    if is_dataclass(value):\n        return {", "hands out the instance dictionary")
+fire("C10", L, "    while (bytecode_offset < max_offset) or current_item_offset < len(items):", "    while bytecode_offset < max_offset:", "trailing entries never consumed (R10.6)")
+silent(["C10"], L, "    while (bytecode_offset < max_offset) or current_item_offset < len(items):", "    while current_item_offset < len(items) or bytecode_offset < max_offset:", "same test, other order")
